@@ -136,6 +136,40 @@ def run_subcheck(sub, ctx, known, tier):
     return rec, failures
 
 
+def run_regressions(prop, subs, ctx, known):
+    """Replay tier: every saved case of a repaired defect (fixed-*.json) and of a recorded
+    finding (known-*.json) is run outside Hypothesis before any generation."""
+    import glob as _glob
+
+    from .common import VERIF_DIR
+
+    rec = Recorder()
+    failures = []
+    by_name = {sub.name: sub for sub in subs}
+    for path in sorted(_glob.glob(os.path.join(VERIF_DIR, "replays", prop, "fixed-*.json"))
+                       + _glob.glob(os.path.join(VERIF_DIR, "replays", prop, "known-*.json"))):
+        with open(path) as fh:
+            data = json.load(fh)
+        sub = by_name.get(data.get("subcheck"))
+        if sub is None:
+            raise HarnessError(f"{path}: no sub-check {data.get('subcheck')}")
+        case = from_jsonable(data["case"])
+        rec.evaluations += 1
+        name = os.path.basename(path)
+        try:
+            call_check(sub, case, rec, ctx)
+            rec.event(("holds:" if name.startswith("fixed-") else "not-reproduced:") + name)
+        except Violation as v:
+            if v.signature in known:
+                rec.known_hits[v.signature] = rec.known_hits.get(v.signature, 0) + 1
+                rec.event("reproduced:" + name)
+            else:
+                failures.append(_failure(sub, v, case))
+    d = rec.to_dict()
+    d["wall_s"] = 0.0
+    return d, failures
+
+
 def _failure(sub, v: Violation, case):
     return {
         "subcheck": sub.name,
@@ -164,6 +198,10 @@ def main(argv=None):
         mod = load_module(args.prop)
         known = known_signatures(args.prop)
         ctx.known = set(known)
+        if args.worker == 0 and not args.only:
+            d, failures = run_regressions(args.prop, mod.subchecks(args.tier), ctx, known)
+            result["subchecks"]["saved_cases"] = d
+            result["failures"].extend(failures)
         for i, sub in enumerate(mod.subchecks(args.tier)):
             if args.only and sub.name != args.only:
                 continue
